@@ -169,12 +169,22 @@ def WatchFilesEqRestart : Prop :=
 
 omit [DecidableEq α] in
 /-- **Watcher and restart apply the same hash results** (each as its own single-path
-`update_file_hashes` with the same cause), when the recorded items are complete and no attached
-file is still UNCONFIRMED. -/
+`update_file_hashes` with the same cause), when the recorded items are complete, no attached
+file is still UNCONFIRMED, and there is no detached file in a static state (those are re-hashed by a
+restart since the repair of the C01 defect "static input edited while detached", and remain invisible
+to the watcher: the known finding `watch-differs:change-while-detached`). -/
 theorem watch_files_eq_restart_partial (paths : List α) (node : α → Option FileRec) (disk : α → Option Nat)
     (s : Sets α) (hc : EventsComplete paths node disk s) (hin : ∀ p, p ∈ s.updated ∨ p ∈ s.deleted → p ∈ paths)
-    (hconf : ∀ p r, node p = some r → r.attached = true → r.state ≠ .unconfirmed) (x : Applied α) :
+    (hconf : ∀ p r, node p = some r → r.attached = true → r.state ≠ .unconfirmed)
+    (hdet : ∀ p r, node p = some r → r.attached = false → r.restartScans = false) (x : Applied α) :
     x ∈ watchApplied node disk s ↔ x ∈ restartApplied paths node disk := by
+  have hsame : ∀ p r, node p = some r → r.restartScans = r.rescannable := by
+    intro p r hn
+    cases ha : r.attached
+    · have h1 := hdet p r hn ha
+      have h2 : r.rescannable = false := by simp [FileRec.rescannable, ha]
+      rw [h1, h2]
+    · simp [FileRec.restartScans, ha]
   unfold watchApplied restartApplied
   simp only [List.mem_filterMap, List.mem_append]
   constructor
@@ -183,7 +193,7 @@ theorem watch_files_eq_restart_partial (paths : List α) (node : α → Option F
     cases hn : node p with
     | none => simp [hn] at hx
     | some r =>
-      simp only [hn] at hx ⊢
+      simp only [hn, hsame p r hn] at hx ⊢
       by_cases hr : r.rescannable = true
       · have ha : r.attached = true := by
           simp only [FileRec.rescannable, Bool.and_eq_true] at hr; exact hr.1.1
@@ -196,7 +206,7 @@ theorem watch_files_eq_restart_partial (paths : List α) (node : α → Option F
     cases hn : node p with
     | none => simp [hn] at hx
     | some r =>
-      simp only [hn] at hx
+      simp only [hn, hsame p r hn] at hx
       by_cases hr : r.rescannable = true
       · have hparts : r.attached = true ∧ r.state ≠ .planned ∧ r.state ≠ .volatile := by
           simp only [FileRec.rescannable, Bool.and_eq_true, decide_eq_true_eq] at hr
@@ -230,6 +240,42 @@ theorem unconfirmed_negation : ¬ WatchFilesEqRestart := by
   have := (h [p] node disk s hc (by intro q hq; simp [s] at hq) ⟨p, .confirmed, some 7⟩).mpr (by decide)
   revert this
   decide
+
+/-- Without the hypothesis on detached static files the statement is false as well, even with a
+recorded item about the file: a restart re-hashes a detached CONFIRMED file that changed on disk (cause
+EXTERNAL), the watcher drops the item because the file is not `rescannable` (known finding
+`watch-differs:change-while-detached`). -/
+theorem detached_static_negation :
+    ∃ (paths : List Str) (node : Str → Option FileRec) (disk : Str → Option Nat) (s : Sets Str),
+      EventsComplete paths node disk s ∧ (∀ p, p ∈ s.updated ∨ p ∈ s.deleted → p ∈ paths) ∧
+      (∀ p r, node p = some r → r.attached = true → r.state ≠ .unconfirmed) ∧
+      ¬ (∀ x, x ∈ watchApplied node disk s ↔ x ∈ restartApplied paths node disk) := by
+  let p : Str := [120]
+  let node : Str → Option FileRec := fun q => if q = p then some ⟨false, .confirmed, some 7⟩ else none
+  let disk : Str → Option Nat := fun q => if q = p then some 8 else none
+  let s : Sets Str := { updated := [p], deleted := [] }
+  refine ⟨[p], node, disk, s, ?_, ?_, ?_, ?_⟩
+  · intro q hq r hr ha
+    simp only [List.mem_singleton] at hq
+    subst hq
+    simp only [node, if_true, Option.some.injEq] at hr
+    subst hr
+    cases ha
+  · intro q hq
+    rcases hq with hq | hq
+    · simpa [s] using hq
+    · simp [s] at hq
+  · intro q r hr ha
+    by_cases hq : q = p
+    · subst hq
+      simp only [node, if_true, Option.some.injEq] at hr
+      subst hr
+      cases ha
+    · simp [node, hq] at hr
+  · intro h
+    have := (h ⟨p, .external, some 8⟩).mpr (by decide)
+    revert this
+    decide
 
 omit [DecidableEq α] in
 /-- **What `process_nglob_changes` receives as `updated` exists.**  Every path that stays in `updated`
